@@ -200,7 +200,7 @@ func genC30(rt *rapid.T, steer bool) (c c30Case, excluded bool) {
 	c.Conn = genConn(rt, kind)
 	n := rapid.SampledFrom([]int{1, 1, 2, 2, 3}).Draw(rt, "nnets")
 	if kind == "nvlink" {
-		n = 1 // see the rule: the NVLink wrapper's own device numbering is not reset either; reuse is not judged there
+		n = 1 // see the rule: reuse of the NVLink wrapper is not judged
 	}
 	for k := 0; k < n; k++ {
 		c.Nets = append(c.Nets, genTopo(rt, kind, false))
@@ -228,7 +228,7 @@ func genC30(rt *rapid.T, steer bool) (c c30Case, excluded bool) {
 
 func TestC30Routing(t *testing.T) {
 	s := kit.Begin(t, "C30", "routing",
-		"C29's connector configurations and topologies without traffic; 1-3 networks built one after the other with the same connector object (NVLink: one network; its wrapper numbers devices across networks, reuse is not judged there). "+
+		"C29's connector configurations and topologies without traffic; 1-3 networks built one after the other with the same connector object (NVLink: one network only - nvlink.Connector.CreateNetwork does not promise a reset and keeps its own device/PCIe-switch numbering, so reuse of that wrapper is outside what is judged). "+
 			"Walk: from every switch to every device port follow switches.GetRoutingTable(sw).FindPort -> the switch's port complex with that local port -> its RemotePort, until an endpoint's network port is reached. "+
 			"Asserted for every kind: the walk ends at the endpoint the port is plugged into, uses only links that were built, never visits a switch twice. "+
 			"Hop count = number of switch-to-switch links walked (the last hop switch->endpoint is not counted): equals the harness' BFS distance for the generic connector with the default/explicit Floyd-Warshall router and for PCIe, equals the Manhattan distance between the tiles for the mesh; not asserted for the bandwidth-first router (generic 'bw', NVLink). "+
